@@ -3,6 +3,20 @@ package main
 import "time"
 
 var props = map[string]propCfg{
+	"C12": {
+		Level: "exploration",
+		Rule: "two layers. (1) allocator state machine (rapid t.Repeat, in-package test overlaid on a scratch copy of the repository): reserve(user names) then GetName/Get/GetChannel/re-reserve over a small colliding alphabet (foo foo0 foo00 fooCh fooCh0 err err0 ctx ctx0 ... keywords); model = set of reserved or handed-out names; invariant: every returned name is new, not a keyword/predeclared identifier, not a user name. (2) end to end: declarations with the naming adversary through the real CLI; in the type-checked output every generated identifier per scope must be unique, not a reserved word, not a user package-level name, and no identifier inside a copied provider expression may resolve to a generated local. non-trivial = history requests one base >=2 times and a base that looks suffixed; e2e case with >=2 entities sharing a base name",
+		Assumptions: []string{"the hard-coded locals eg/ch/zero/err are judged by the compiler (same-scope clash) and by the capture check, not by the package-level-name rule"},
+		QuickShards: 12, QuickChecks: 50, ThoroughShards: 12, ThoroughChecks: 1200,
+		QuickBudget: 75 * time.Second, ThoroughBudget: 9 * time.Minute,
+	},
+	"C11": {
+		Level: "exploration",
+		Rule: "rapid state machine over a working directory: generate (under a drawn GOMAXPROCS in 1..16, separate process => fresh map seeds), truncate / empty / garbage / foreign-content / delete / touch the output file, edit the declaration (toggle Async, rename injector, reorder providers); model = clean-room output of the current sources in a fresh directory; invariant after every generate: byte equality with the model. Naming adversary on (injector names equal to generated variable names). Plus the fixed corpus examples/*: regenerated under GOMAXPROCS 1/4/16 and compared with the checked-in files (exhaustive). non-trivial = a generate that ran with a stale/damaged/foreign output present, or >=2 distinct GOMAXPROCS values in one history",
+		Assumptions: []string{"clean-room run is the specification of 'pure function of the input package'", "process-level randomness = Go map seeds and scheduler of separate CLI processes"},
+		QuickShards: 16, QuickChecks: 25, ThoroughShards: 16, ThoroughChecks: 500,
+		QuickBudget: 75 * time.Second, ThoroughBudget: 9 * time.Minute,
+	},
 	"C01": {
 		Level: "exploration",
 		Rule: "rapid-generated declarations with Async providers x provider-granular schedules owned by the check inside a testing/synctest bubble (starve(P) for every needed provider, FIFO, LIFO, drawn choice lists) plus free-running -race executions with drawn latency vectors; oracle: exit(P) precedes enter(Q) for every model edge, every call carries exactly the argument hashes the reference model predicts, result equals reference, no race report touching *_band.go. non-trivial = emitted function has >=2 threads and >=1 cross-thread wait (measured on the emitted file); distinct = case hash",
